@@ -82,7 +82,7 @@ def compare(ctx, case, o, prof):
     forms = case["forms"]
     enc = case["enc"]
     where = "v%d/%d-bit/asz%d/%s" % (enc["ver"], enc["fmt"], enc["asz"], "le" if enc["le"] else "be")
-    lst = ",".join(fname(f) for f in forms)
+    lst = ",".join(fname(f) for f in forms) if len(forms) <= 24 else "%s,… (%d attributes)" % (",".join(fname(f) for f in forms[:6]), len(forms))
     if o is None or "outcome" in o:
         ctx.violation("unit:%s%s:%s" % ((o or {}).get("outcome"), tagp, (o or {}).get("loc", "")),
                       "replay of forms [%s] (%s) did not return normally: %s" % (lst, where, o), case, o)
@@ -136,7 +136,8 @@ def compare(ctx, case, o, prof):
     # skipping
     sk = o["skip"]
     if "outcome" in sk:
-        kind = "block-length-overflow" if case["ovf"] else ("block-length-beyond-data" if case["trunc"] else "other")
+        kind = "block-length-overflow" if case["ovf"] else ("block-length-beyond-data" if case["trunc"] else
+                                                            ("long-fixed-run" if case["t"] == "runs" else "other"))
         ctx.violation("skip:%s:%s%s" % (kind, sk["outcome"], tagp),
                       "skip_attributes over [%s] (%s) %s at %s: %s" % (lst, where, sk["outcome"], sk.get("loc"), sk.get("msg")), case, sk)
     else:
@@ -145,7 +146,7 @@ def compare(ctx, case, o, prof):
             if case["ovf"] or case["trunc"]:
                 sig = "skip:block-length-beyond-data:%s%s" % ("ok-inside-entry" if sk.get("ok") else "err", tagp)
             elif well:
-                sig = "skip:lands-elsewhere:%s%s" % (fname(forms[-1]) if len(forms) == 1 else "list", tagp)
+                sig = "skip:lands-elsewhere:%s%s" % (fname(forms[-1]) if len(forms) == 1 else ("long-fixed-run" if case["t"] == "runs" else "list"), tagp)
             else:
                 sig = "skip:ill-formed-accepted%s" % tagp
             ctx.violation(sig, "skip_attributes over [%s] (%s): got %s, allowed %s (reading consumes %s)" %
@@ -175,7 +176,7 @@ def run(ctx):
                 if i in (0, 4000, 9000):
                     ctx.sample({"case": {k: case[k] for k in ("t", "enc", "forms", "names", "info", "abbrev", "reads", "skip", "sizes", "line", "files") if k in case}, "obs": o})
             compare(ctx, case, o, prof)
-            if prof == "dev" and o and "reads" in o:
+            if prof == "dev" and o and "reads" in o and case["t"] != "runs":   # runs repeat one typical value thousands of times
                 for rd in o["reads"]:
                     if "err" not in rd:
                         norm_events.append({"ev": "Norm", "name": rd["name"], "form": rd["form"],
@@ -200,6 +201,7 @@ def run(ctx):
         "DW_AT_start_scope in DWARF 3 (standard inconsistent) tolerates both",
         "ill-formed attributes (length field beyond the data, unassigned form code, implicit_const below indirect) must be rejected by reading; skipping must fail too, except implicit_const below indirect which may be skipped as a zero-size value",
         "quick tier: address sizes 1/2/4/8 are crossed only with the forms whose size depends on them (addr, ref_addr); lists use 9 size-class representatives x 2 encodings",
+        "long runs: the accumulated fixed-size total crosses 255/256/257 (16 lists x 2 encodings) and 65535/65536/65537 (4 lists of ~4100 attributes, first encoding only in quick)",
         "line-table variant: DWARF 5 file-entry formats only (two fields, two files); forms the line-table reader does not implement are tolerated when they describe a vendor-defined content type (drift)",
     ]
     ctx.finish("model_checking",
